@@ -16,6 +16,7 @@ struct ModelTraits {
 	bool throwing_move = false;  // element moves can throw (TrackedNM)
 	bool serialization = false;  // SAVE/LOAD operations are available in this build
 	bool tracked       = true;   // element type reports its moved-from state (Tracked*)
+	bool mpi           = false;  // MSG_PACK / MSG_XFER operations are available in this build
 };
 
 struct Effect {
@@ -663,6 +664,33 @@ inline bool plan_effect(Model const& M, ModelTraits const& T, Op const& op, Effe
 		for(int q : dv.off) e.touched[0][static_cast<std::size_t>(q)] = 1;
 		var("into-view");
 		e.probe_id = P_LOAD_INTO_VIEW;
+		return true;
+	}
+	// ------------------------------------------------------------ MPI messages
+	case O_MSG_PACK: case O_MSG_XFER: {
+		if(!T.mpi) return false;
+		MView sv;
+		if(!model_view(M, T, op.da, op.a, op.ca, sv) || sv.count() == 0) return false;
+		if(op.var < 0 || op.var > 15) return false;
+		e.elems = sv.count();
+		e.expect_no_alloc = true;
+		static char const* vn[] = {"message(elements)", "skeleton+message", "message(buf,layout,type)", "create_subarray"};
+		var(vn[op.var & 3]);
+		if(op.kind == O_MSG_PACK) {
+			e.reads_only = true;
+			return true;
+		}
+		MView dv;
+		if(!model_view(M, T, op.db, op.b, op.cb, dv) || dv.count() != sv.count()) return false;
+		bool const same_root = op.da == op.db && op.a == op.b;
+		if(same_root && !disjoint(dv, sv)) return false;
+		MArr const& ra = M.at(op.da, op.a);
+		MArr&       b  = tgt(0, op.db, op.b);
+		e.viewwrite[0] = true;
+		e.expect_base_unchanged = true;
+		for(std::size_t i = 0; i < dv.off.size(); ++i) b.v[static_cast<std::size_t>(dv.off[i])] = ra.v[static_cast<std::size_t>(sv.off[i])];
+		var(vn[(op.var >> 2) & 3]);
+		if(!dv.same_extents(sv)) var("other-shape");
 		return true;
 	}
 	default: return false;
